@@ -18,6 +18,9 @@ def run(rep, idx, tier):
     rep.require("C10.3", 3)
     rep.require("C10.4", 1)
     rep.require("C10.5", 5)
+    rep.require("C10.6", 1)
+    from . import glue as _glue
+    _glue.reset_discipline(rep, "C10.6", idx, ["WishboneCSRBridge"])
     c = get_ctx(idx, "WishboneCSRBridge.elaborate")
     ctor = get_ctor(idx, "WishboneCSRBridge")
     rep.analysed(c.fi.site, ctor.fi.site)
